@@ -6,9 +6,13 @@ open MV
 
 def eps : Rat := pow2 (-52)
 
-/-- candidate bins for an exact position `y` (bin = ⌊y⌋) allowing for float rounding of relative size `k·eps` -/
+/-- candidate bins for an exact position `y` (bin = ⌊y⌋) allowing for float rounding of relative size `k·eps`.
+The code computes the position as fl(δ·fl(x−min)) with δ = fl(n/fl(max−min)): four correctly rounded
+operations on exact inputs, so the computed position is the exact one up to a *relative* error of a few ulps
+(a difference of two floats is rounded relatively: no absolute term). A sample a hair below `min = 0` has a
+tiny negative position and a definite slot. -/
 def candBins (y : Rat) (k : Rat) : List Int :=
-  let d := k * eps * (ratAbs y + 1)
+  let d := k * eps * ratAbs y + pow2 (-1070)    -- (and the product may underflow: absolute 2^-1074)
   let a := (y - d).floor
   let b := (y + d).floor
   if a == b then [a] else [a, b]
